@@ -1,0 +1,19 @@
+//go:build verif
+
+package selfmon
+
+import (
+	"context"
+
+	"github.com/projecteru2/core/cluster"
+	"github.com/projecteru2/core/store"
+	"github.com/projecteru2/core/types"
+)
+
+// NewWatcherForVerif builds a NodeStatusWatcher over an injected store (simulation seam).
+func NewWatcherForVerif(ID int64, config types.Config, cluster cluster.Cluster, stor store.Store) *NodeStatusWatcher {
+	return &NodeStatusWatcher{ID: ID, config: config, cluster: cluster, store: stor}
+}
+
+// RunForVerif runs the watcher loop until ctx is done.
+func (n *NodeStatusWatcher) RunForVerif(ctx context.Context) { n.run(ctx) }
